@@ -77,3 +77,23 @@ package destination
 //@   _, _, e2 := ReadDestination(data)
 //@   assert(e1 == nil && PermittedDest(keys_and_cert.WireSigType(data), keys_and_cert.WireCryptoType(data)) ==> e2 == nil)
 //@ }
+
+// C14: a Destination the constructor returns without error passes Validate(),
+// serialises, and its bytes parse back as a Destination with an empty
+// remainder and the same serialisation (everything executed from the bodies).
+//@ option C14_DestinationCtorRoundTrips nocontract *
+//@ lemma C14_DestinationCtorRoundTrips(data []byte) {
+//@   k, _, err := keys_and_cert.ReadKeysAndCert(data)
+//@   if err == nil {
+//@     d, e := NewDestination(k)
+//@     if e == nil {
+//@       assert(d.Validate() == nil)
+//@       b, e1 := d.Bytes()
+//@       assert(e1 == nil)
+//@       d2, rem, e2 := ReadDestination(b)
+//@       assert(e2 == nil && len(rem) == 0)
+//@       b2, e3 := d2.Bytes()
+//@       assert(e3 == nil && seqeq(b2, b))
+//@     }
+//@   }
+//@ }
